@@ -89,8 +89,9 @@ func (this *Item) action(sym string, nextState int) action.Action {
 	return action.ERROR
 }
 
+// canRecover returns true if the error symbol can be shifted from this item.
 func (this *Item) canRecover() bool {
-	return this.Len > 0 && this.Body[0] == "error"
+	return this.ExpectedSymbol == "error"
 }
 
 // Equals weturns whether two Items are equal based on their ProdIdx, Pos and NextToken.
